@@ -28,6 +28,22 @@ def gen(tier, rng):
         st0 = "500" if acts[0].endswith("D") or acts[0].endswith("P") else "200"
         extra = "wu=%s,%s ws=%s,101 we=closed" % (hx(pre.target), hx(r.target), st0)
         yield cv_line(stream, acts, extra=extra), {"n": 2, "order": "upgrade"}
+    for x in gen_withheld(tier, rng):
+        yield x
+
+
+def gen_withheld(tier, rng):
+    """the client announces a body and withholds it (it waits for the server's verdict); the application gives the
+    request up without asking for the body: the final response must still reach the client"""
+    from convgen import cv_line, action_str
+    from common import hx
+    for i in range(12 if tier == "quick" else 120):
+        expect = rng.chance(2, 3)
+        cl = rng.choice([5, 1024, 1025, 70000]) if expect else rng.choice([1025, 70000])
+        head = ("POST /w%d HTTP/1.1\r\nHost: h\r\n%sContent-Length: %d\r\n\r\n" % (i, "Expect: 100-continue\r\n" if expect else "", cl)).encode()
+        fin, st = rng.choice([("D", "500"), ("P", "500"), ("R403:6e6f:1", "403")])
+        extra = "wu=%s ws=%s we=open limit=1500" % (hx("/w%d" % i), st)
+        yield cv_line(head, [action_str([], fin)], eof=False, extra=extra), {"n": 1, "order": "withheld-body"}
 
 
 def nontrivial(case, mo):
